@@ -340,8 +340,8 @@ def build_obj_two_phase(ast, deferred: list):
             deferred.append(lambda attr=attr, v=v: setattr(o, sd["names"][attr], build_obj(v)))
         extra = [mk_avp(x) for x in ast[3]]
         if issubclass(cls, Message):
-            for a in extra:
-                o.append_avp(a)
+            if extra:
+                o.avps = list(extra)          # (the other documented way of attaching undeclared AVPs: the `avps` setter)
         elif extra or hasattr(o, "additional_avps"):
             o.additional_avps = extra
         return o
